@@ -26,6 +26,9 @@ def jobs_for(tier):
         jobs.append(('Workers', os.path.basename(path)[:-4], 'Complete'))
     jobs.append(('Pipeline', 'Pipeline_sab_loseboundary', 'JoinResult'))
     jobs.append(('Pipeline', 'Pipeline_sab_norestore', 'FlagRestored'))
+    for path in sorted(glob.glob(os.path.join(config.SPEC, 'WorkersED_%s_*.cfg' % t))):
+        jobs.append(('WorkersED', os.path.basename(path)[:-4], None))
+    jobs.append(('WorkersED', 'WorkersED_sab_q2', 'Complete'))
     jobs.append(('Matcher', 'Matcher_%s' % t, None))
     jobs.append(('Matcher', 'Matcher_sab_zip', 'Result'))
     jobs.append(('FilterSoundness', 'FilterSoundness_%s_safe' % t, None))
